@@ -388,6 +388,9 @@ def run_object(case, part):
     part.outcome("deepcopy:" + ("disjoint" if not shared else "SHARED"))
     if shared:
         part.violation("C13/deepcopy-shares-state", "a deep copy shares a mutable container with its original", case, "disjoint", "%d shared containers" % len(shared))
+    asdict = dict(obj)
+    if snap(copy.deepcopy(asdict)) != snap(asdict):
+        part.violation("C13/deepcopy-not-equal/dict-of-object", "a deep copy of the object's content as a dict differs from it (values or their format)", case, repr(snap(asdict))[:300], repr(snap(copy.deepcopy(asdict)))[:300])
     cp2 = copy.copy(obj)
     if not (cp2 == obj):
         part.violation("C13/copy-not-equal", "a shallow copy differs from its original", case, "equal", "different")
@@ -408,6 +411,10 @@ def special_objects():
         "object-with-toplevel-extension-property": stix2.v21.Tool(name="t", ext_rank=3, extensions={"extension-definition--" + U + "a": {"extension_type": "toplevel-property-extension"}}),
         "object-with-unregistered-toplevel-extension-property": stix2.parse({"type": "tool", "spec_version": "2.1", "id": "tool--" + U + "7", "created": TS, "modified": TS, "name": "t", "ext_other": [1],
                                                                              "extensions": {"extension-definition--" + U + "b": {"extension_type": "toplevel-property-extension"}}}),
+        # a library timestamp (sub-millisecond digits, 'at least millisecond' format) read from one object and kept in an untyped place of another
+        "object-with-timestamp-object-in-custom-property": stix2.v21.Tool(name="t", allow_custom=True, x_seen=stix2.v21.Identity(name="i", identity_class="individual",
+                                                                           created="2020-01-01T00:00:00.123456Z", modified="2020-01-02T00:00:00.100000Z").created,
+                                                                           x_list=[stix2.utils.STIXdatetime(2020, 1, 1, 0, 0, 0, 120000, precision="millisecond", precision_constraint="min")]),
         "v20-object-with-custom-property": stix2.v20.Tool(name="t", labels=["remote-access"], x_foo="bar", allow_custom=True),
         "bundle-with-dict-member": stix2.v21.Bundle(objects=[a["o"], {"type": "x-unreg", "spec_version": "2.1", "id": "x-unreg--" + U + "8", "foo": [1, {"a": 2}]}], allow_custom=True),
     }
@@ -455,10 +462,10 @@ def run(run):
         for key in g.top_keys():
             cases.append({"kind": "object", "version": version, "key": key})
     for sp_ in ("object-with-custom-properties", "object-with-custom_properties-arg", "object-with-toplevel-extension-property", "object-with-unregistered-toplevel-extension-property",
-                "v20-object-with-custom-property", "bundle-with-dict-member"):
+                "v20-object-with-custom-property", "bundle-with-dict-member", "object-with-timestamp-object-in-custom-property"):
         cases.append({"kind": "object", "special": sp_})
     run.mode = "BFS (histories of depth <= 2 over the operation menu)"
-    run.rule = ("every operation (%d) alone on every argument shape (%d); ordered pairs of operations on the same inputs (%s); per type maximal instance + 6 special objects: "
+    run.rule = ("every operation (%d) alone on every argument shape (%d); ordered pairs of operations on the same inputs (%s); per type maximal instance + 7 special objects: "
                 "setattr/delattr/setitem/delitem of every property, deepcopy equality and container disjointness; states = distinct (shape, history) and objects"
                 % (len(names), len(SHAPES), "all pairs on all shapes" if th else "all pairs within an API area + a deterministic cross-area cover, on 2 shapes"))
     run.bound = {"operations": len(names), "shapes": SHAPES, "history_depth": 2, "histories": sum(1 for c in cases if c["kind"] == "history"), "objects": sum(1 for c in cases if c["kind"] == "object")}
